@@ -6,11 +6,10 @@ use crate::{TilesConvertReader, TilesConverterParameters};
 use versatiles_core::types::*;
 use versatiles_core::utils::{compress, decompress, recompress};
 
+/// payload of a concrete length (symbolic lengths make every buffer operation of the codec model data-dependent)
 fn any_payload() -> Blob {
-	let n: usize = kani::any();
-	kani::assume(n <= 3);
-	let bytes: [u8; 3] = kani::any();
-	Blob::from(bytes[..n].to_vec())
+	let bytes: [u8; 2] = kani::any();
+	Blob::from(bytes.to_vec())
 }
 
 const COMPS: [TileCompression; 3] = [TileCompression::Uncompressed, TileCompression::Gzip, TileCompression::Brotli];
@@ -31,107 +30,97 @@ macro_rules! codec_stubs {
 	};
 }
 
-// H1: the recompressor built from (src, dst, force): decoding its output under dst gives the source payload
-codec_stubs! {
-	#[kani::unwind(8)]
-	fn c04_h1_recompressor() {
-		let payload = any_payload();
-		let mut si = 0;
-		while si < 3 {
-			let mut di = 0;
-			while di < 3 {
-				let mut fi = 0;
-				while fi < 2 {
-					let (src, dst, force) = (COMPS[si], COMPS[di], fi == 1);
-					let stored = ok(compress(payload.clone(), &src)).unwrap();
-					let conv = ok(TileConverter::new_tile_recompressor(&src, &dst, force)).unwrap();
-					assert!(conv.is_empty() == (!force && src == dst), "pipeline must be empty exactly when nothing has to be done");
-					let out = ok(conv.process_blob(stored.clone()));
-					assert!(out.is_some(), "recompression of a well-formed tile failed");
-					let back = ok(decompress(out.unwrap(), &dst));
-					assert!(back.is_some() && back.unwrap().as_slice() == payload.as_slice(), "payload changed by recompression");
-					std::mem::forget(conv);
-					fi += 1;
-				}
-				di += 1;
-			}
-			si += 1;
-		}
-		kani::cover!(payload.len() == 3);
-		kani::cover!(payload.len() == 0);
-	}
-}
-
-// H2: utils::recompress / compress / decompress dispatch
-codec_stubs! {
-	#[kani::unwind(8)]
-	fn c04_h2_dispatch() {
-		let payload = any_payload();
-		let mut si = 0;
-		while si < 3 {
-			let mut di = 0;
-			while di < 3 {
-				let (src, dst) = (COMPS[si], COMPS[di]);
-				let stored = ok(compress(payload.clone(), &src)).unwrap();
-				let back0 = ok(decompress(stored.clone(), &src));
-				assert!(back0.is_some() && back0.unwrap().as_slice() == payload.as_slice(), "decompress(compress(p)) != p");
-				let out = ok(recompress(stored, &src, &dst));
-				assert!(out.is_some(), "recompress failed on a well-formed tile");
-				let back = ok(decompress(out.unwrap(), &dst));
-				assert!(back.is_some() && back.unwrap().as_slice() == payload.as_slice(), "payload changed by recompress");
-				di += 1;
-			}
-			si += 1;
-		}
-		kani::cover!(payload.len() == 2);
-	}
-}
-
-// H4: decompressor
-codec_stubs! {
-	#[kani::unwind(8)]
-	fn c04_h4_decompressor() {
-		let payload = any_payload();
-		let mut si = 0;
-		while si < 3 {
-			let src = COMPS[si];
-			let stored = ok(compress(payload.clone(), &src)).unwrap();
-			let conv = TileConverter::new_decompressor(&src);
-			let out = ok(conv.process_blob(stored));
-			assert!(out.is_some() && out.unwrap().as_slice() == payload.as_slice(), "decompressor does not return the payload");
-			std::mem::forget(conv);
-			si += 1;
-		}
-		kani::cover!(payload.len() == 1);
-	}
-}
-
-// H3: converting reader: declared compression = requested-or-source; the tile decodes under the DECLARED compression to the source payload
-codec_stubs! {
-	#[kani::unwind(34)]
-	fn c04_h3_convert_reader() {
-		let level = any_level();
-		let (pyr, src_box) = one_level_pyramid(level);
-		let src = any_compression();
-		let want_comp: Option<TileCompression> = if kani::any() { Some(any_compression()) } else { None };
-		let force: bool = kani::any();
-		let reader = EchoReader::new(pyr, src);
-		let cp = TilesConverterParameters::new(want_comp, None, force, false, false);
-		let conv = ok(TilesConvertReader::new_from_reader(Box::new(reader), cp)).unwrap();
-		let declared = conv.get_parameters().tile_compression;
-		assert!(declared == want_comp.unwrap_or(src), "declared compression is neither the requested nor the source one");
-		assert!(conv.get_parameters().tile_format == TileFormat::PBF, "tile format changed");
-		let c = TileCoord3 { x: kani::any(), y: kani::any(), z: level };
-		kani::assume(inb(&src_box, c.x, c.y));
-		let got = ok(block_on(conv.get_tile_data(&c)));
-		assert!(got.is_some(), "lookup failed");
-		let blob = got.unwrap();
-		assert!(blob.is_some(), "tile of the source is missing");
-		let back = ok(decompress(blob.unwrap(), &declared));
-		assert!(back.is_some(), "tile does not decode under the declared compression");
-		assert!(payload_coord(&back.unwrap()) == Some(c), "payload changed");
-		kani::cover!(want_comp.is_some() && want_comp != Some(src));
-		kani::cover!(force && want_comp.is_none());
+/// one (source, target) pair, both force values, symbolic 2-byte payload
+fn recompress_pair<const SI: usize, const DI: usize>() {
+	let payload = any_payload();
+	let (src, dst) = (COMPS[SI], COMPS[DI]);
+	let stored = ok(compress(payload.clone(), &src)).unwrap();
+	// H1: the recompressor built from (src, dst, force)
+	let mut fi = 0;
+	while fi < 2 {
+		let force = fi == 1;
+		let conv = ok(TileConverter::new_tile_recompressor(&src, &dst, force)).unwrap();
+		let nothing_to_do = (!force && src == dst) || (src == TileCompression::Uncompressed && dst == TileCompression::Uncompressed);
+		assert!(conv.is_empty() == nothing_to_do, "pipeline must be empty exactly when nothing has to be done");
+		let out = ok(conv.process_blob(stored.clone()));
+		assert!(out.is_some(), "recompression of a well-formed tile failed");
+		let back = ok(decompress(out.unwrap(), &dst));
+		assert!(back.is_some() && back.unwrap().as_slice() == payload.as_slice(), "payload changed by recompression");
 		std::mem::forget(conv);
+		fi += 1;
 	}
+	// H2: utils::compress / decompress / recompress dispatch
+	let back0 = ok(decompress(stored.clone(), &src));
+	assert!(back0.is_some() && back0.unwrap().as_slice() == payload.as_slice(), "decompress(compress(p)) != p");
+	let out = ok(recompress(stored.clone(), &src, &dst));
+	assert!(out.is_some(), "recompress failed on a well-formed tile");
+	let back = ok(decompress(out.unwrap(), &dst));
+	assert!(back.is_some() && back.unwrap().as_slice() == payload.as_slice(), "payload changed by recompress");
+	// H4: decompressor
+	let dconv = TileConverter::new_decompressor(&src);
+	let plain = ok(dconv.process_blob(stored));
+	assert!(plain.is_some() && plain.unwrap().as_slice() == payload.as_slice(), "decompressor does not return the payload");
+	std::mem::forget(dconv);
+	kani::cover!(payload.as_slice()[0] == 0x1f, "payload that looks like a codec tag");
 }
+
+macro_rules! pair {
+	($name:ident, $si:expr, $di:expr) => {
+		codec_stubs! {
+			#[kani::unwind(5)]
+			fn $name() { recompress_pair::<$si, $di>(); }
+		}
+	};
+}
+pair!(c04_recompress_u_u, 0, 0);
+pair!(c04_recompress_u_g, 0, 1);
+pair!(c04_recompress_u_b, 0, 2);
+pair!(c04_recompress_g_u, 1, 0);
+pair!(c04_recompress_g_g, 1, 1);
+pair!(c04_recompress_g_b, 1, 2);
+pair!(c04_recompress_b_u, 2, 0);
+pair!(c04_recompress_b_g, 2, 1);
+pair!(c04_recompress_b_b, 2, 2);
+
+// H3: converting reader: declared compression = requested-or-source; the tile decodes under the DECLARED compression
+// to the source payload. Source and requested compression concrete per instance (they decide buffer lengths), force symbolic.
+fn convert_reader<const SI: usize, const WI: usize>() {
+	let level = any_level();
+	let (pyr, src_box) = one_level_pyramid(level);
+	let src = COMPS[SI];
+	let want_comp: Option<TileCompression> = if WI < 3 { Some(COMPS[WI]) } else { None };
+	let force: bool = kani::any();
+	let reader = EchoReader::new(pyr, src);
+	let cp = TilesConverterParameters::new(want_comp, None, force, false, false);
+	let conv = ok(TilesConvertReader::new_from_reader(Box::new(reader), cp)).unwrap();
+	let declared = conv.get_parameters().tile_compression;
+	assert!(declared == want_comp.unwrap_or(src), "declared compression is neither the requested nor the source one");
+	assert!(conv.get_parameters().tile_format == TileFormat::PBF, "tile format changed");
+	let c = TileCoord3 { x: kani::any(), y: kani::any(), z: level };
+	kani::assume(inb(&src_box, c.x, c.y));
+	let got = ok(block_on(conv.get_tile_data(&c)));
+	assert!(got.is_some(), "lookup failed");
+	let blob = got.unwrap();
+	assert!(blob.is_some(), "tile of the source is missing");
+	let back = ok(decompress(blob.unwrap(), &declared));
+	assert!(back.is_some(), "tile does not decode under the declared compression");
+	assert!(payload_coord(&back.unwrap()) == Some(c), "payload changed");
+	kani::cover!(force);
+	kani::cover!(!force);
+	std::mem::forget(conv);
+}
+
+macro_rules! conv {
+	($name:ident, $si:expr, $wi:expr) => {
+		codec_stubs! {
+			#[kani::unwind(3)]
+			fn $name() { convert_reader::<$si, $wi>(); }
+		}
+	};
+}
+conv!(c04_convert_reader_u_keep, 0, 3);
+conv!(c04_convert_reader_g_keep, 1, 3);
+conv!(c04_convert_reader_u_g, 0, 1);
+conv!(c04_convert_reader_g_b, 1, 2);
+conv!(c04_convert_reader_b_u, 2, 0);
+conv!(c04_convert_reader_b_b, 2, 2);
